@@ -312,11 +312,12 @@ def pickFatal : List Fatal → Option Fatal
     | none => some f
     | some b => if b.loc > f.loc || (b.loc == f.loc && b.nameLen > f.nameLen) then some b else some f
 
-/-- insert into a list sorted by end **descending**, after all entries with end ≥ the new one
+/-- insert `x` (which precedes every element of the list in source order) into a list sorted by end
+    **descending**: before the first entry whose end is ≤ its own, so that equal ends keep source order
     (`matches.sort(key=itemgetter(0), reverse=True)` is stable) -/
 def insDesc (x : Nat × Nat) : List (Nat × Nat) → List (Nat × Nat)
   | [] => [x]
-  | y :: ys => if y.1 ≥ x.1 then y :: insDesc x ys else x :: y :: ys
+  | y :: ys => if y.1 > x.1 then y :: insDesc x ys else x :: y :: ys
 
 def sortDesc : List (Nat × Nat) → List (Nat × Nat)
   | [] => []
